@@ -255,7 +255,7 @@ func (r *runner) doReq(st *Step) {
 		w.log.Emit(M{"ev": "skip", "x": x, "why": "url: " + err.Error()})
 		return
 	}
-	e := &exchange{x: x, gid: gid(), ans: st.Ans, faults: st.Faults, open: true, hdr: req.Header.Clone(), cancel: st.Cancel}
+	e := &exchange{x: x, gid: gid(), ans: st.Ans, faults: st.Faults, open: true, hdr: req.Header.Clone(), cancel: st.Cancel, noStore: contains(st.Rq.Fl, "no-store")}
 	w.mu.Lock()
 	w.ex[x] = e
 	w.mu.Unlock()
